@@ -133,6 +133,14 @@ CHECKS = {
 }
 
 
+LIFECYCLE_NOTE = (
+    " Every Engine-A scenario may also carry seeded object life cycles (DESIGN.md 2.7): a Device that was re-meshed, moved in place,"
+    " restored from HDF5, copied / deep-copied / pickled / identity-transformed, or simulated on before; a second solver alive on the"
+    " same Device; the same solver solved twice; a SolverOptions object used before or configured attribute by attribute; the"
+    " tdgl.solve() entry point; devices stated in metres (not C08)."
+)
+
+
 def main():
     checks = []
     for pid, (cat, text, note, tech, ref, tq, tt) in sorted(CHECKS.items()):
@@ -147,7 +155,7 @@ def main():
                 "replay_cmd_template": f"timeout 600 {PY} {pid} --replay {{path}}",
                 "engine": "tdglsim",
                 "level_claimed": {"category": cat, "text": text, "design_ref": ref},
-                "level_note": note,
+                "level_note": note + LIFECYCLE_NOTE,
                 "technique": tech,
             }
         )
